@@ -100,6 +100,14 @@ def main(tier):
     tw.update({"twm_0": ("JSIGHT 0.3\n" + mg + up % "zcats", "JSIGHT 0.3\n" + mg + up % "zcats" + up % "zdogs", [["interactions", "http GET /zdogs/{id}"], ["tags", "@zdogs"]]),
                "twm_1": ("JSIGHT 0.3\n" + mg + up % "zcats" + up % "zdogs", "JSIGHT 0.3\n" + mg + up % "zcats" + bird + up % "zdogs",
                          [["interactions", "http POST /zbirds/{k}"], ["tags", "@zbirds"]])})
+    # a schema that uses a regex type with a character class: its generated example must not change when an unrelated
+    # declaration is added elsewhere
+    rex = 'TYPE @zre regex\n  /[a-z]{8}/\n'
+    user = 'GET /zb\n  200\n  {\n    "y": @zre\n  }\n'
+    fresh_t = 'TYPE @zfresh\n{\n  "q": 1\n}\n'
+    tw.update({"twx_0": ("JSIGHT 0.3\n" + rex + user, "JSIGHT 0.3\n" + rex + fresh_t + user, [["userTypes", "@zfresh"]]),
+               "twx_1": ("JSIGHT 0.3\n" + rex + user, "JSIGHT 0.3\n" + rex + user + fresh_t, [["userTypes", "@zfresh"]]),
+               "twx_2": ("JSIGHT 0.3\n" + user + rex, "JSIGHT 0.3\n" + fresh_t + user + rex, [["userTypes", "@zfresh"]])})
     for cid, (without, with_, keys) in tw.items():
         for sfx, t in (("w", without), ("f", with_)):
             cases.append({"id": cid + sfx, "files": {"main.jst": b64(t), "parts/item.jst": b64(item)}, "root": "main.jst"})
@@ -111,6 +119,12 @@ def main(tier):
         bad = compare(obs[cid + "w"], obs[cid + "f"], keys)
         if bad:
             sig = {"what": bad.split(":")[0][:50], "kind": "same-file-included-twice"}
+            if cid.startswith("twx"):
+                # a user of a regex type: do the catalogs differ in generated examples only?
+                a, b = obs[cid + "w"], obs[cid + "f"]
+                sa, sb = rel.strip_examples(a.get("json") or "null"), rel.strip_examples(b.get("json") or "null")
+                if a["outcome"] == b["outcome"] == "ok" and sa is not None and compare(dict(a, json=json.dumps(sa)), dict(b, json=json.dumps(sb)), keys) is None:
+                    sig = {"what": "example-only", "kind": "regex-example-drift"}
             chk.violation("adding/removing an independent block next to a file that is included twice: %s | with the block:\n%s--- parts/item.jst\n%s" % (bad, with_, item),
                           {"kind": "locality_files", "files_with": {"main.jst": with_, "parts/item.jst": item}, "files_without": {"main.jst": without, "parts/item.jst": item},
                            "keys": keys, "signature": sig}, sig)
